@@ -203,9 +203,44 @@ class DocGen:
             a.append(('r', self.seq(d + 2, inner)))
         return a
 
+    def cross_twins(self, nodes):
+        """textual twins across the content lists of one parent: copy an
+        element of an earlier list (argument) into a later list (another
+        argument or the body) of the same command / environment / item"""
+        r = self.r
+        out = []
+        for n in nodes:
+            t = n[0]
+            if t in ('C', 'E', 'I'):
+                args = n[2] if t != 'I' else n[1]
+                args = [(k, self.cross_twins(b) if k != 'c' else b) for k, b in args]
+                body = self.cross_twins(n[3] if t == 'E' else n[2]) if t != 'C' else None
+                lists = [b for k, b in args if k != 'c'] + ([body] if body is not None else [])
+                donors = [(i, e) for i, l in enumerate(lists[:-1]) for e in l if e[0] not in 'TK']
+                if donors and r.random() < self.cfg.twins:
+                    i, e = r.choice(donors)
+                    j = r.randint(i + 1, len(lists) - 1)
+                    if not (t == 'E' and n[1] in LST and lists[j] is body):
+                        lists[j].insert(r.randint(0, len(lists[j])), e)
+                if t == 'C':
+                    n = ('C', n[1], args)
+                elif t == 'I':
+                    n = ('I', args, body)
+                else:
+                    n = ('E', n[1], args, body)
+            elif t == 'G':
+                n = ('G', self.cross_twins(n[1]))
+            elif t == 'M':
+                n = ('M', n[1], self.cross_twins(n[2]))
+            out.append(n)
+        return out
+
     def document(self):
         n = self.r.randint(1, self.cfg.size + 2)
-        return normalise(self.seq(0, dict(TOP), n=n))
+        nodes = self.seq(0, dict(TOP), n=n)
+        if self.cfg.twins:
+            nodes = self.cross_twins(nodes)
+        return normalise(nodes)
 
 
 # ---------------------------------------------------------------- render ---
@@ -668,7 +703,9 @@ class Renderer:
             self.seq(n[2])
             self.w(MATH_CLOSE[n[1]])
         elif t == 'V':
-            self.w('\\begin{%s}%s\\end{%s}' % (n[1], n[2], n[1]))
+            self.w('\\begin')
+            self.ws()
+            self.w('{%s}%s\\end{%s}' % (n[1], n[2], n[1]))
         else:
             raise ValueError(n)
 
